@@ -140,3 +140,120 @@ def pool_text(pool):
         out.append(str(len(qm)))
         out += [str(x) for x in qm]
     return " ".join(out)
+
+
+# --------------------------------------------------------------------------------------
+# completeness of a Pareto front (theorem C17_front_cert_sound)
+# --------------------------------------------------------------------------------------
+
+def fleaf_ok(k, rows, ch, front, cs, leaf):
+    bm, fm = leaf
+    lk = rk = 0
+    for ms in bm:
+        lk += sum(ms)
+    for f, c, m in zip(front, cs, fm):
+        lk += m
+        rk += m * f[c]
+    if not rk < lk:
+        return False
+    for c in range(k):
+        lhs = rhs = 0
+        for j, ((_, F), ms) in enumerate(zip(rows, bm)):
+            S = rows[j][0][ch[j]]
+            for Tt, m in zip(F, ms):
+                if m:
+                    lhs += m * (c in S)
+                    rhs += m * ((c == j) + (c in Tt))
+        for f, cc, m in zip(front, cs, fm):
+            if cc == c:
+                lhs += m
+        if rhs > lhs:
+            return False
+    return True
+
+
+def _solve_fleaf(k, rows, ch, front, cs):
+    import z3
+
+    lam = [[z3.Int(f"l_{j}_{t}") for t in range(len(F))] for j, (_, F) in enumerate(rows)]
+    phi = [z3.Int(f"p_{i}") for i in range(len(front))]
+    s = z3.Solver()
+    s.set("timeout", 10000)
+    flat = [x for row in lam for x in row]
+    for x in flat + phi:
+        s.add(x >= 0)
+    s.add(z3.Sum([phi[i] * front[i][cs[i]] for i in range(len(front))] + [z3.IntVal(0)]) < z3.Sum(flat + phi + [z3.IntVal(0)]))
+    for c in range(k):
+        lhs, rhs = [], []
+        for j, (V, F) in enumerate(rows):
+            S = V[ch[j]]
+            for t, Tt in enumerate(F):
+                if c in S:
+                    lhs.append(lam[j][t])
+                coef = (c == j) + (c in Tt)
+                if coef:
+                    rhs.append(coef * lam[j][t])
+        for i in range(len(front)):
+            if cs[i] == c:
+                lhs.append(phi[i])
+        s.add(z3.Sum(rhs + [z3.IntVal(0)]) <= z3.Sum(lhs + [z3.IntVal(0)]))
+    r = s.check()
+    if r == z3.sat:
+        m = s.model()
+        val = lambda x: m.eval(x, model_completion=True).as_long()  # noqa: E731
+        return "leaf", ([[val(x) for x in row] for row in lam], [val(x) for x in phi])
+    if r != z3.unsat:
+        return "unknown", None
+    eta = [z3.Int(f"e_{c}") for c in range(k)]
+    p = z3.Solver()
+    p.set("timeout", 10000)
+    for e in eta:
+        p.add(e >= 0)
+    sm = lambda S: z3.Sum([eta[c] for c in S] + [z3.IntVal(0)])  # noqa: E731
+    for j, (V, F) in enumerate(rows):
+        for Tt in F:
+            p.add(sm(V[ch[j]]) + 1 <= eta[j] + sm(Tt))
+    for i, f in enumerate(front):
+        p.add(eta[cs[i]] + 1 <= f[cs[i]])
+    if p.check() == z3.sat:
+        m = p.model()
+        return "model", [m.eval(e, model_completion=True).as_long() for e in eta]
+    return "unknown", None
+
+
+def build_front_cert(k, rows, front, cap=3000):
+    """front: vectors in the listing order of the base. {'status': ok|cap|counter|unknown, 'pool', 'eta', 'choices'}"""
+    sizes = [len(V) for V, _ in rows]
+    total = k ** len(front)
+    for x in sizes:
+        total *= x
+    if total > cap:
+        return {"status": "cap", "pool": [], "choices": total}
+    zero_bm = [[0] * len(F) for _, F in rows]
+    pool = [(zero_bm, [1 if i == j else 0 for i in range(len(front))]) for j in range(len(front))]
+    for ch in itertools.product(*[range(x) for x in sizes]):
+        for cs in itertools.product(*[range(k) for _ in front]):
+            if any(f[c] == 0 for f, c in zip(front, cs)):
+                continue        # eta_c + 1 <= 0: refuted by the unit leaf of that member
+            if any(fleaf_ok(k, rows, ch, front, cs, lf) for lf in pool):
+                continue
+            kind, val = _solve_fleaf(k, rows, ch, front, cs)
+            if kind == "leaf":
+                pool.append(val)
+            elif kind == "model":
+                return {"status": "counter", "pool": pool, "eta": val, "choices": total}
+            else:
+                return {"status": "unknown", "pool": pool, "choices": total}
+    return {"status": "ok", "pool": pool, "choices": total}
+
+
+def fpool_text(pool):
+    return pool_text(pool)
+
+
+def front_text(front):
+    out = [str(len(front))]
+    for f in front:
+        out.append(str(len(f)))
+        out += [str(x) for x in f]
+    return " ".join(out)
